@@ -331,7 +331,13 @@ func vcNewNet(t *testing.T, in *vcInput, runID int) *vcNet {
 	if in.Mode == "info" {
 		return net
 	}
-	net.tmpdir, _ = os.MkdirTemp("", "vc-net-")
+	// sign-state files on a memory file system when there is one: FilePV fsyncs on every signature, and
+	// durability across a machine crash is C04's subject, not this driver's
+	base := ""
+	if fi, err := os.Stat("/dev/shm"); err == nil && fi.IsDir() {
+		base = "/dev/shm"
+	}
+	net.tmpdir, _ = os.MkdirTemp(base, "vc-net-")
 	for _, name := range net.names {
 		if net.byz[name] {
 			continue
